@@ -718,3 +718,52 @@ pub fn twin_resources() -> Result<(), Fail> {
             Err(e) => fail!("C15", "C15.bounded.resources_of_different_types_never_share_a_node", "one task writing two look-alike resources of different types aborted: {}", panic_msg(e)) }
   Ok(())
 }
+
+// ---- C09: a checker may decide on the current state alone and carry no stamp at all (zero-sized stamp) ----------------------------
+#[derive(Copy, Clone, PartialEq, Eq, Hash, Debug)] pub struct PresentNow;
+impl ResourceChecker<Res> for PresentNow {
+  type Stamp = (); type Error = std::convert::Infallible;
+  fn stamp<RS: ResourceState<Res>>(&self, _k: &Res, _s: &mut RS) -> Result<(), Self::Error> { Ok(()) }
+  fn stamp_reader(&self, _k: &Res, _r: &mut Option<&u8>) -> Result<(), Self::Error> { Ok(()) }
+  fn stamp_writer(&self, _k: &Res, _w: MapWriter<'_, Res>) -> Result<(), Self::Error> { Ok(()) }
+  fn check<RS: ResourceState<Res>>(&self, k: &Res, s: &mut RS, _stamp: &()) -> Result<Option<impl Debug>, Self::Error> { Ok(if s.get_global_map().get(k).is_none() { Some("absent") } else { None }) }
+  fn wrap_error(&self, e: std::convert::Infallible) -> Self::Error { e }
+}
+#[derive(Copy, Clone, PartialEq, Eq, Hash, Debug)] pub struct EvenNow;
+impl pie::OutputChecker<u32> for EvenNow {
+  type Stamp = ();
+  fn stamp(&self, _o: &u32) {}
+  fn check(&self, o: &u32, _s: &()) -> Option<impl Debug> { if o % 2 == 1 { Some("odd") } else { None } }
+}
+thread_local! { static RUNS: Cell<u32> = Cell::new(0); }
+#[derive(Clone, PartialEq, Eq, Hash, Debug)] pub struct NeedsCell(pub u8);
+impl Task for NeedsCell { type Output = bool; fn execute<C: Context>(&self, c: &mut C) -> bool { RUNS.with(|r| r.set(r.get() + 1)); c.read(&Res(self.0), PresentNow).unwrap().is_some() } }
+#[derive(Clone, PartialEq, Eq, Hash, Debug)] pub struct Leaf9(pub u8);
+impl Task for Leaf9 { type Output = u32; fn execute<C: Context>(&self, c: &mut C) -> u32 { c.read(&Res(self.0), MapEqualsChecker).unwrap().copied().unwrap_or(0) as u32 } }
+#[derive(Clone, PartialEq, Eq, Hash, Debug)] pub struct NeedsEven(pub u8);
+impl Task for NeedsEven { type Output = u32; fn execute<C: Context>(&self, c: &mut C) -> u32 { RUNS.with(|r| r.set(r.get() + 1)); c.require(&Leaf9(self.0), EvenNow) } }
+pub fn stampless_checkers() -> Result<(), Fail> {
+  let runs = || RUNS.with(|r| r.get());
+  // resource dependency, top-down and bottom-up
+  for bottom_up in [false, true] {
+    let mut pie: Pie<()> = Pie::default(); RUNS.with(|r| r.set(0));
+    pie.resource_state_mut::<Res>().get_global_map_mut().insert(Res(7), 1);
+    pie.new_session().require(&NeedsCell(7));
+    pie.new_session().require(&NeedsCell(7));
+    if runs() != 1 { fail!("C09", "C09.bounded.stampless_checker_decides", "a task whose stamp-less checker reports consistent was executed {} times in two builds", runs()); }
+    pie.resource_state_mut::<Res>().get_global_map_mut().remove(&Res(7));
+    let out = if bottom_up { let mut s = pie.new_session(); { let mut b = s.create_bottom_up_build(); b.schedule_tasks_affected_by(&Res(7)); b.update_affected_tasks(); } s.require(&NeedsCell(7)) } else { pie.new_session().require(&NeedsCell(7)) };
+    if runs() != 2 || out { fail!("C09", "C09.bounded.stampless_checker_decides", "the stamp-less checker of the dependency reports `absent`, but the task was not re-executed ({} executions, output {}; bottom-up: {})", runs(), out, bottom_up); }
+  }
+  // require dependency with a stamp-less output checker
+  {
+    let mut pie: Pie<()> = Pie::default(); RUNS.with(|r| r.set(0));
+    pie.resource_state_mut::<Res>().get_global_map_mut().insert(Res(8), 2);
+    pie.new_session().require(&NeedsEven(8)); pie.new_session().require(&NeedsEven(8));
+    if runs() != 1 { fail!("C09", "C09.bounded.stampless_checker_decides", "requirer executed {} times although its stamp-less output checker accepts the output", runs()); }
+    pie.resource_state_mut::<Res>().get_global_map_mut().insert(Res(8), 3);
+    let out = pie.new_session().require(&NeedsEven(8));
+    if runs() != 2 || out != 3 { fail!("C09", "C09.bounded.stampless_checker_decides", "the required task now returns 3, which the stamp-less output checker rejects, but the requirer was not re-executed ({} executions, output {})", runs(), out); }
+  }
+  Ok(())
+}
